@@ -7,7 +7,8 @@
 From Coq Require Import ZifyBool.
 From GB Require Import Base.Prelude Base.GoSem Base.DecText Base.BytesLemmas Model.Cell Model.Json Spec.ColTypes Spec.Values Spec.EncJson.
 From GB Require Import Proofs.CellCommon Proofs.CellAll Proofs.TransEquivCellBytesDefs Proofs.TransEquivCellBytesTies.
-From GBGen Require Import Consts TransCellBytes.
+From GB Require Import Proofs.TransEquivCellBytes Proofs.TransEquivCell Proofs.LengthAgree.
+From GBGen Require Import Consts TransCellBytes TransCell.
 Open Scope Z_scope.
 
 (* the packed CHAR metadata of every declared length 0..1023 is a uint16 *)
@@ -59,3 +60,24 @@ Proof.
   destruct (CellBytes_g _ _ _ _ _ _ _ _ _) as [a| |]; cbn [res_sim] in S; try contradiction. subst a. reflexivity.
 Qed.
 End Source.
+
+(* The length rule and the value decoder of the Go code agree, for ALL row data, positions, type codes and metadata:
+   whenever the translated CellBytes returns a value it reports the size the translated cellLength computes for that cell
+   (the clause of C09 "the per-type length rule and the per-type value decoder always agree on the size of a cell", about
+   the translations of both Go functions; the hand-written model only occurs in the proof).  The side condition is the
+   one of length_value_agree: fractional-seconds metadata 7 of TIMESTAMP2 / DATETIME2 (never written by MySQL). *)
+Theorem source_length_value_agree ffmt tz jsonp fuel d pos typ meta uns t l :
+  (1000 <= fuel)%nat -> wf_bytes d -> 0 <= typ < 256 -> 0 <= meta < 65536 -> Z.of_nat pos < 2 ^ 62 -> (pos <= length d)%nat ->
+  (typ = K_TypeTimestamp2 \/ typ = K_TypeDateTime2 -> 0 <= meta <= 6) ->
+  CellBytes_g ffmt (print_timestamp tz) jsonp fuel d (Z.of_nat pos) typ meta uns = Ok (t, l) ->
+  cellLength_g d (Z.of_nat pos) typ meta = Ok l.
+Proof.
+  intros Hf W Ht Hm Hp Hle Hfsp E.
+  pose proof (CellBytes_equiv ffmt tz jsonp fuel d pos typ meta uns Hf W Hm Hp Hle) as S. rewrite E in S.
+  destruct (cell_bytes ffmt tz jsonp d pos typ meta uns) as [[o l']| |] eqn:CB.
+  2, 3: cbn [flat res_sim] in S; contradiction.
+  assert (l' = l) by (destruct o; cbn [flat res_sim] in S; inversion S; reflexivity). subst l'.
+  pose proof (length_value_agree ffmt tz jsonp d pos typ meta uns o l CB Hfsp) as L.
+  pose proof (cellLength_equiv d pos typ meta W Ht Hm Hp) as S2. rewrite L in S2.
+  destruct (cellLength_g d (Z.of_nat pos) typ meta) as [a| |]; cbn [res_sim] in S2; try contradiction. subst a. reflexivity.
+Qed.
